@@ -169,7 +169,8 @@ theorem onPublish_sroot (b : B) (m : Msg) : (onPublish b m).1.topics.sroot = b.t
   dsimp only
   split
   · exact retainStep_sroot b m
-  · rw [fanout_topics]; exact retainStep_sroot b m
+  · show (fanout (retainStep b m).1 _ _).1.topics.sroot = _
+    rw [fanout_topics]; exact retainStep_sroot b m
 
 theorem releaseAll_sroot (l : List QEntry) : ∀ b : B, (releaseAll b l).1.topics.sroot = b.topics.sroot := by
   induction l with
